@@ -58,9 +58,19 @@ def solve(puzzle, h, w, problem):
                               creek, heyawake, lits, nurimisaki, putteria, aquarium, gokigen, sudoku, building, doppelblock,
                               fillomino, view, geradeweg, castle_wall, compass, fivecells, shakashaka)
 
-    def rooms(rgs):
+    def room_order(rgs):
+        """the order in which the rooms are LISTED is not part of a problem: as numbered (0), reversed (1), rotated (2)"""
         k = max(rgs) + 1
-        return [[(c // w, c % w) for c in range(len(rgs)) if rgs[c] == b] for b in range(k)]
+        v = (sum(rgs) + len(rgs)) % 3
+        return list(range(k)) if v == 0 else list(range(k - 1, -1, -1)) if v == 1 else list(range(k // 2, k)) + list(range(k // 2))
+
+    def rooms(rgs):
+        cells_rev = (sum(rgs) % 2 == 1)        # ... nor is the order of the cells inside a room
+        out = []
+        for b in room_order(rgs):
+            r = [(c // w, c % w) for c in range(len(rgs)) if rgs[c] == b]
+            out.append(r[::-1] if cells_rev else r)
+        return out
     with warnings.catch_warnings():
         warnings.simplefilter("ignore")
         if puzzle == "slitherlink":
@@ -101,7 +111,7 @@ def solve(puzzle, h, w, problem):
             sat, a = _call(creek.solve_creek, h, w, grid(problem, h + 1, w + 1))
             return sat, arr_facts(a) if sat else []
         if puzzle == "heyawake":
-            rs, cl = rooms(problem[0]), list(problem[1])
+            rs, cl = rooms(problem[0]), [problem[1][b] for b in room_order(problem[0])]
             rects = []
             for room, v in zip(rs, cl):
                 ys, xs = [y for y, _ in room], [x for _, x in room]
